@@ -221,15 +221,18 @@ H_op_issue(o, e) ==
       \* (first back-off 50 ms - 10 %)
       isRnd == e.kind = "create" /\ e.round > 0
       old == {r \in x.rnds : r.g = e.round}
-      prev == IF old = {} THEN [g |-> e.round, n |-> 0, last |-> -1] ELSE CHOOSE r \in old : TRUE
+      prev == IF old = {} THEN [g |-> e.round, n |-> 0, last |-> -1, noteT |-> -1, noteVal |-> 0] ELSE CHOOSE r \in old : TRUE
       v5 == IF isRnd /\ prev.n + 1 > 4 THEN {V("C17", "round_issues_more_than_four_creates", e.i, e)} ELSE {}
       v6 == IF isRnd /\ prev.last >= 0 /\ e.t - prev.last < 45000 THEN {V("C17", "round_attempts_not_separated_by_backoff", e.i, e)} ELSE {}
+      \* ... and each Create follows the wait the round chose before it (jitter or back-off, nanoseconds in the note) by that wait
+      v7 == IF isRnd /\ prev.noteT >= 0 /\ 1000 * (e.t - prev.noteT) < prev.noteVal - 1000000
+            THEN {V("C17", "round_waits_less_than_the_wait_it_chose", e.i, e)} ELSE {}
       \* first refresh attempt issued after the record was lost (C03)
       y == [x EXCEPT !.burst = @ + 1,
-                     !.rnds = IF isRnd THEN (@ \ old) \cup {[g |-> e.round, n |-> prev.n + 1, last |-> e.t]} ELSE @,
+                     !.rnds = IF isRnd THEN (@ \ old) \cup {[g |-> e.round, n |-> prev.n + 1, last |-> e.t, noteT |-> -1, noteVal |-> 0]} ELSE @,
                      !.reconnAt = IF e.kind = "get" /\ e.src = "verify" THEN -1 ELSE @,
                      !.lostHb = IF x.lostAt >= 0 /\ @ = 0 /\ e.kind = "update" THEN e.op ELSE @]
-  IN R([SetI(o, e.i, y) EXCEPT !.pend = @ \cup {op}], v1 \cup v2 \cup v3 \cup v4 \cup v5 \cup v6)
+  IN R([SetI(o, e.i, y) EXCEPT !.pend = @ \cup {op}], v1 \cup v2 \cup v3 \cup v4 \cup v5 \cup v6 \cup v7)
 
 \* a successful mutation by instance w
 H_mutation(o, e) ==
@@ -429,7 +432,11 @@ H_note(o, e) ==
       nb == IF e.name = "round_backoff" THEN x.nbo + 1 ELSE x.nbo
       nr == IF e.name = "round_start" THEN x.nrs + 1 ELSE x.nrs
       v3 == IF nb > 3 * nr THEN {V("C17", "round_makes_more_than_four_attempts", e.i, e)} ELSE {}
-  IN R(SetI(o, e.i, [x EXCEPT !.note = e.name, !.nbo = nb, !.nrs = nr]), v \cup v2 \cup v3)
+      isW == e.name \in {"round_start", "round_backoff"} /\ e.round > 0
+      oldr == {r \in x.rnds : r.g = e.round}
+      pr == IF oldr = {} THEN [g |-> e.round, n |-> 0, last |-> -1, noteT |-> -1, noteVal |-> 0] ELSE CHOOSE r \in oldr : TRUE
+      rn == IF isW THEN (x.rnds \ oldr) \cup {[pr EXCEPT !.noteT = e.t, !.noteVal = e.val]} ELSE x.rnds
+  IN R(SetI(o, e.i, [x EXCEPT !.note = e.name, !.nbo = nb, !.nrs = nr, !.rnds = rn]), v \cup v2 \cup v3)
 
 H_disc(o, e) ==
   LET x == o.I[e.i] IN
